@@ -5,6 +5,7 @@ import Driver.C05
 import Driver.C16
 import Driver.C17
 import Driver.C13
+import Driver.C03
 
 def main (args : List String) : IO UInt32 := do
   let stdin ← IO.getStdin
@@ -16,4 +17,5 @@ def main (args : List String) : IO UInt32 := do
   | ["c16"] => Driver.lineLoop stdin stdout ([] : List (List Nat)) Driver.C16.step; return 0
   | ["c17"] => Driver.lineLoop stdin stdout () Driver.C17.step; return 0
   | ["c13"] => Driver.lineLoop stdin stdout () Driver.C13.step; return 0
+  | ["c03"] => Driver.lineLoop stdin stdout (⟨Zix.Hash.new, [], false⟩ : Driver.C03.St) Driver.C03.step; return 0
   | _ => IO.eprintln "usage: zixdriver <component> < script"; return 2
